@@ -340,7 +340,7 @@ func Solve(o *Obligation, scratch string, quickCap, fullCap int, crossCheck bool
 	// stage 2: race all three with the full cap
 	rctx, cancel := context.WithCancel(ctx)
 	defer cancel()
-	ch := make(chan solveResult, len(solvers))
+	ch := make(chan solveResult, len(solvers)+1)
 	var wg sync.WaitGroup
 	for _, sp := range solvers {
 		wg.Add(1)
@@ -348,6 +348,27 @@ func Solve(o *Obligation, scratch string, quickCap, fullCap int, crossCheck bool
 			defer wg.Done()
 			ch <- runSolver(rctx, sp, file, fullCap)
 		}(sp)
+	}
+	// a fourth contender for goals over truncated division: the same query with quoT left uninterpreted. Every model
+	// of the original query is a model of the abstracted one (interpret quoT by its definition), so "unsat" carries
+	// over; any other answer of this contender is discarded (never a counterexample, never an error). It decides
+	// "the code computes this quotient expression" by congruence, where the solvers do not finish on the nonlinear
+	// div terms themselves.
+	if absQ, ok := abstractQuo(q); ok && !o.ExpectFail {
+		absFile := strings.TrimSuffix(file, ".smt2") + ".quo-uf.smt2"
+		if os.WriteFile(absFile, []byte(absQ), 0o644) == nil {
+			defer os.Remove(absFile)
+			wg.Add(1)
+			go func() {
+				defer wg.Done()
+				r := runSolver(rctx, solvers[0], absFile, fullCap)
+				r.solver += "/quo-uninterpreted"
+				if r.status != "unsat" {
+					r.status, r.out = "unknown", "(abstracted query undecided)"
+				}
+				ch <- r
+			}()
+		}
 	}
 	go func() { wg.Wait(); close(ch) }()
 	var total int64 = r.ms
@@ -389,6 +410,16 @@ func Solve(o *Obligation, scratch string, quickCap, fullCap int, crossCheck bool
 	keep := filepath.Join(scratch, "undecided")
 	os.MkdirAll(keep, 0o755)
 	os.Rename(file, filepath.Join(keep, filepath.Base(file)))
+}
+
+const quoDef = "(define-fun quoT ((a Int) (b Int)) Int (ite (>= a 0) (div a b) (- (div (- a) b))))"
+
+// abstractQuo replaces the definition of truncated division by a declaration, if the query applies quoT at all.
+func abstractQuo(q string) (string, bool) {
+	if !strings.Contains(q, quoDef) || strings.Count(q, "(quoT ") < 2 { // the definition of remT holds one application
+		return "", false
+	}
+	return strings.Replace(q, quoDef, "(declare-fun quoT (Int Int) Int)", 1), true
 }
 
 func crossCheckObl(o *Obligation, file string, cap int) {
